@@ -169,6 +169,10 @@ class OomSession(BusSession):
             return R.bus_call(s, 'RequestName', [R.S(N1), R.U(op[2])])
         if kind == 'rel':
             return R.bus_call(s, 'ReleaseName', [R.S(N1)])
+        if kind == 'fillone':
+            return R.bus_call(s, 'RequestName', [R.S(b'com.example.F%d' % op[2]), R.U(0)])
+        if kind == 'unfillone':
+            return R.bus_call(s, 'ReleaseName', [R.S(b'com.example.F%d' % op[2])])
         if kind == 'add':
             return R.bus_call(s, 'AddMatch', [R.S(RULE2)])
         if kind == 'addesc':
@@ -197,6 +201,10 @@ class OomSession(BusSession):
         raise ValueError(op)
 
     def do(self, op):
+        if op[0] in ('fill', 'unfill'):
+            for i in range(op[2]):
+                self.do([op[0] + 'one', op[1], i])
+            return
         m = self.build(op)
         self.send(op[1], m)
         if op[0] == 'hello':
@@ -239,6 +247,13 @@ PREFIXES = [
     # a monitor is attached: every request is also captured for it (more allocations, more places to fail)
     [['monitor', 'C']],
     [['monitor', 'C'], ['req', 'A', 1], ['req', 'B', 0]],
+    # the name registry's hash table just below the sizes at which it re-sizes itself (12 entries; unique names count): the
+    # request that adds the next name makes the table allocate a new bucket array - one more allocation that may fail
+    [['fill', 'C', 7]],
+    [['fill', 'C', 8]],
+    [['fill', 'C', 9]],
+    # ... and far below what it once held (the table shrinks on a later insert)
+    [['fill', 'C', 13], ['unfill', 'C', 12]],
 ]
 
 
@@ -255,6 +270,9 @@ def requests_for(prefix):
     reqs.append(['disc', 'B'])
     if any(p[0] == 'call' for p in prefix):
         reqs.append(['reply', 'B', 'A', None])
+    if any(p[0] == 'fill' for p in prefix):
+        # only the requests that add to or take from the registry
+        return [['hello', 'D'], ['req', 'B', 0], ['req', 'B', 4], ['req', 'A', 2], ['disc', 'A'], ['disc', 'C'], ['callname', 'A']]
     if any(p[0] == 'monitor' for p in prefix):
         mon = [p[1] for p in prefix if p[0] == 'monitor']
         reqs = [r for r in reqs if r[1] not in mon and (len(r) < 3 or r[2] not in mon)]     # a monitor neither sends nor is addressed
